@@ -119,6 +119,10 @@ def check(run, ctx):
                 if fld in prod:
                     prod[i_] = prod[fld]
     n_slots = len([k_ for k_ in (prod or {}) if isinstance(k_, str)]) or len(prod or {})
+    if prod is not None and not any(v_.endswith(".project_root") or v_ == "project_root" for v_ in prod.values()):
+        # fewer slots than today and the parent's project root is not among them: decidable without knowing the new shape
+        run.finding(P5, "_execute_parallel_linting", "project-root-not-forwarded", f"the work item `{norm(elt)[:60]}` no longer carries self.project_root: the worker cannot build its orchestrator on the parent's root (the configuration mapping never holds `_project_root` - only the per-file metadata copy does), falls back to the working directory and loses the repository-level ignore patterns whenever the run is started from elsewhere", ex.loc)
+        return __doc__
     run.require(prod is not None and isinstance(tgt, ast.Name) and n_slots == 3, "_execute_parallel_linting: work items are neither 3-tuples nor 3-field records built by one comprehension over file_paths - P5 cannot decide the new shape")
     # the worker side: which slot reaches lint_file(...), Orchestrator(project_root=..., config=...)
     wpar = w.node.args.args[0].arg
